@@ -12,7 +12,7 @@ pub fn meta(tier: &str) -> CheckMeta {
     let (n1, n2, n3, cap) = params(tier);
     CheckMeta {
         id: "C03", level: "model_checking",
-        rule: "E-box over grammars x strings. G1: every grammar top->S(mid), mid->S(low), low->T with S in a menu of 10 shapes (seq, optional, repeat, repeat1, choice, field, alias, doubled) and T in 4 terminal shapes, crossed with the switches mid hidden / low hidden / mid inlined / whitespace extras (6400 grammars; those the generator rejects are counted and skipped); G2: operator grammars e -> x | e op e | -e | e! for every assignment of levels {1,2,3} x {left,right} to three binary operators x 8 unary options (1728 tables); G3: hand-written GLR grammars with declared conflicts and dynamic precedence in {-1,0,1}. For each accepted grammar every token string up to the length bound (with and without single spaces). Oracle: an independent span-matching derivation enumerator over the grammar JSON decides membership (no error <=> derivable) and yields the expected visible tree (kinds, fields, aliases, hidden/inlined splicing, byte ranges): unique for G1, the Pratt parser's tree for G2, and for G3 one of the derivations with maximal dynamic precedence. Non-trivial = (grammar, string) pairs where the string is in the language.",
+        rule: "E-box over grammars x strings. G1: every grammar top->S(mid), mid->S(low), low->T with S in a menu of 10 shapes (seq, optional, repeat, repeat1, choice, field, alias, doubled) and T in 4 terminal shapes, crossed with the switches mid hidden / low hidden / mid inlined / whitespace extras (6400 grammars; those the generator rejects are counted and skipped); G2: operator grammars e -> x | e op e | -e | e! for every assignment of levels {1,2,3} x {left,right} to three binary operators x 8 unary options (1728 tables); G3: hand-written GLR grammars with declared conflicts and dynamic precedence in {-1,0,1}; G4: LR(1)-but-not-LALR(1) grammars (equal cores, different reductions per look-ahead). For each accepted grammar every token string up to the length bound (with and without single spaces). Oracle: an independent span-matching derivation enumerator over the grammar JSON decides membership (no error <=> derivable) and yields the expected visible tree (kinds, fields, aliases, hidden/inlined splicing, byte ranges): unique for G1, the Pratt parser's tree for G2, and for G3 one of the derivations with maximal dynamic precedence. Non-trivial = (grammar, string) pairs where the string is in the language.",
         assumptions: vec!["the reference deriver and the Pratt parser are the specification; they were written from the grammar DSL documentation".into()],
         exhaustive: true,
         bounds: json!({"g1_max_tokens": n1, "g2_max_tokens": n2, "g3_max_tokens": n3, "grammars_per_family_cap": cap}),
@@ -165,7 +165,7 @@ pub fn check_grammar(f: &FamGrammar, maxlen: usize, res: &mut ShardResult) {
 pub fn family_list(tier: &str) -> Vec<FamGrammar> {
     let (_, _, _, cap) = params(tier);
     let mut out = vec![];
-    for fam in [families::g1(), families::g2(), families::g3()] {
+    for fam in [families::g1(), families::g2(), families::g3(), families::g4()] {
         let n = fam.len();
         // simplest first; under a cap take an evenly spread subset so that every switch value and shape still occurs
         if cap == 0 || n <= cap { out.extend(fam); } else {
@@ -182,7 +182,7 @@ pub fn worker(ctx: &Ctx, res: &mut ShardResult) {
     let (n1, n2, n3, _) = params(&ctx.tier);
     for (i, f) in family_list(&ctx.tier).iter().enumerate() {
         if !ctx.mine(i) { continue; }
-        let n = match f.kind { "G1" => n1, "G2" => n2, _ => n3 };
+        let n = match f.kind { "G1" => n1, "G2" => n2, "G4" => 5.min(n1.max(4)), _ => n3 };
         check_grammar(f, n, res);
         if res.too_many() { return; }
         if ctx.out_of_time() { res.caps.push("wall-clock budget reached; remaining grammars not explored".into()); return; }
@@ -192,7 +192,7 @@ pub fn worker(ctx: &Ctx, res: &mut ShardResult) {
 pub fn replay(case: &Value) -> Vec<String> {
     let case = if case.get("kind").and_then(|k| k.as_str()) == Some("crash") { &case["case"] } else { case };
     let id = case["grammar_id"].as_str().unwrap_or("");
-    let all: Vec<FamGrammar> = families::g1().into_iter().chain(families::g2()).chain(families::g3()).collect();
+    let all: Vec<FamGrammar> = families::g1().into_iter().chain(families::g2()).chain(families::g3()).chain(families::g4()).collect();
     let Some(f) = all.iter().find(|f| f.id == id) else { return vec![format!("unknown grammar {}", id)] };
     let mut r = ShardResult::new();
     check_grammar(f, 5, &mut r);
